@@ -59,6 +59,7 @@ type Explorer struct {
 	work          [][]int
 	active        int
 	fnInfos       sync.Map
+	feasCache sync.Map
 	Paths         []PathResult
 	Failures      []*Failure
 	Reached       map[string]*Witness
